@@ -222,6 +222,14 @@ pub fn docs_yaml(c: &CaseReq) -> Vec<String> {
 // generic random rule cases
 
 pub fn gen_case(r: &mut Rng, masks: Vec<u64>, ndocs: usize) -> CaseReq {
+    if r.chance(22) {
+        let (det, extra) = gen::gen_special(r);
+        let mut docs: Vec<Yaml> = extra;
+        while docs.len() < ndocs.max(1) {
+            docs.push(gen::gen_doc(r));
+        }
+        return CaseReq { optimised: false, det, tps: vec![], tns: vec![], docs, masks };
+    }
     let n_ids = 1 + r.below(3);
     let names = ["A", "B", "C", "D"];
     let mut det: Vec<(String, Yaml)> = vec![];
